@@ -5,6 +5,7 @@ from ordered_set import OrderedSet
 from xdsl.builder import Builder
 from xdsl.context import Context
 from xdsl.dialects import builtin, x86, x86_func
+from xdsl.dialects.builtin import IntegerAttr
 from xdsl.dialects.x86.registers import (
     R12,
     R13,
@@ -29,6 +30,28 @@ Registers that should be the same after the called function returns to the calle
 class X86PrologueEpilogueInsertion(ModulePass):
     name = "x86-prologue-epilogue-insertion"
 
+    def _rebase_entry_stack_accesses(
+        self, func: x86_func.FuncOp, pushed_bytes: int
+    ) -> None:
+        """
+        The stack pointer block argument of the function is the value of rsp on entry.
+        Once the prologue has pushed `pushed_bytes` bytes, rsp is that much lower, so
+        memory accesses relative to it (such as loads of stack-passed arguments) have
+        to be moved up by the same amount.
+        """
+        for arg in func.body.blocks[0].args:
+            if arg.type != RSP:
+                continue
+            for use in tuple(arg.uses):
+                op = use.operation
+                if getattr(op, "memory", None) is not arg:
+                    continue
+                offset = op.attributes.get("memory_offset")
+                if isinstance(offset, IntegerAttr):
+                    op.attributes["memory_offset"] = IntegerAttr(
+                        offset.value.data + pushed_bytes, offset.type
+                    )
+
     def _process_function(self, func: x86_func.FuncOp) -> None:
         used_callee_preserved_registers = OrderedSet(
             res.type
@@ -41,6 +64,10 @@ class X86PrologueEpilogueInsertion(ModulePass):
 
         if not used_callee_preserved_registers:
             return
+
+        self._rebase_entry_stack_accesses(
+            func, 8 * len(used_callee_preserved_registers)
+        )
 
         builder = Builder(InsertPoint.at_start(func.body.blocks[0]))
         sp_register = builder.insert(x86.GetRegisterOp(RSP))
